@@ -318,6 +318,22 @@ def _sqlite_decimal_over_15_digits(case, message):
     return len(stored.normalize().as_tuple().digits) > 15
 
 
+def _sqlite_decimal_select_real_noise(case, message):
+    """DECIMAL columns are REALs in SQLite and SQLite 3.40's text->REAL conversion is off by one ulp for about one value in
+    10^4; select(x.attr ...) converts the REAL with an attribute-less converter (no scale: no quantize), so the noise digits
+    (16th/17th significant digit) show up in the query result, while E[pk].attr quantizes them away."""
+    if case.get('kind') != 'decimal' or case.get('check') != 'select':
+        return False
+    seen, got = _seen(case), case.get('got') or {}
+    if seen is None or not seen.is_finite() or got.get('type') != 'Decimal':
+        return False
+    g = lib.Decimal(got['str'])
+    if not g.is_finite() or g == seen:
+        return False
+    exp = _decimal_exp(case)
+    return g.quantize(exp) == seen.quantize(exp) and abs(g - seen) <= abs(seen) * lib.Decimal('4e-16')
+
+
 def _sqlite_timedelta_float_days(case, message):
     """SQLiteTimedeltaConverter stores a timedelta as a float number of days: from 2**16 days on, one ulp of the double
     is larger than a microsecond, so the sub-second part comes back changed."""
@@ -345,6 +361,7 @@ EXCLUSIONS = {
     'decimal_unrounded_in_session': _decimal_unrounded_in_session,
     'sqlite_decimal_over_15_digits': _sqlite_decimal_over_15_digits,
     'sqlite_timedelta_float_days': _sqlite_timedelta_float_days,
+    'sqlite_decimal_select_real_noise': _sqlite_decimal_select_real_noise,
 }
 
 MANIFEST = {
